@@ -159,12 +159,16 @@ def check(pid, tier, only=None, jobs=None, seed=0, quiet=False):
                                          'analyses': [{'kind': 'main', 'post': post, 'timeout': timeout}]}))
         # twins + findings run over the first partition set as a whole? -> use each partition's label 'all' if unsplit
         tw_t = ob.twin_timeout or max(20, min(60, timeout))
+        if tier == 'thorough':
+            tw_t = ob.thorough.get('twin_timeout', tw_t)
         plabels = ['all'] + [l for l, _ in ob.partitions(tier) if l != 'all']
         if len(plabels) > 9:
-            # witness search falls back to single partitions only for a sample of them (spread over the list)
+            # witness search: the whole domain, then a sample of single partitions (spread over the list), and only
+            # if the tag is still unwitnessed the remaining partitions one by one
             rest = plabels[1:]
             step = max(1, len(rest) // 8)
-            plabels = ['all'] + rest[::step][:8]
+            sample = rest[::step][:8]
+            plabels = ['all'] + sample + [l for l in rest if l not in sample]
         # Witness search: one process per partition would multiply work; instead search partitions in order
         # inside one job list (the runner stops asking once every tag has a witness).
         for what in [('twin', t) for t in sorted(ob.tags_for(tier))] + [('finding', c) for c in sorted(codes)]:
